@@ -120,6 +120,13 @@ fn cfgs() -> Vec<Cfg> {
                 CMode { name: "DIGITS".into(), pats: vec![CPat::new("[0-9]+", 1)], transitions: vec![] },
             ],
         },
+        // mode 0 switches, mode 1 has no transitions at all (the target of Scanner::set_mode(1))
+        Cfg {
+            modes: vec![
+                CMode { name: "A".into(), pats: vec![CPat::new("a", 0), CPat::new("b", 1)], transitions: vec![(1, 1)] },
+                CMode { name: "B".into(), pats: vec![CPat::new("a+", 2), CPat::new("b", 3)], transitions: vec![] },
+            ],
+        },
         // line feeds as tokens, characters nothing matches behind them (positions are observed)
         // (a second mode that is only reached by set_mode(1))
         Cfg { modes: vec![CMode { name: "LINES".into(), pats: vec![CPat::new("\\n", 0), CPat::new("[a-z]+", 1)], transitions: vec![] }, CMode { name: "X".into(), pats: vec![CPat::new("[a-z]", 2)], transitions: vec![] }] },
@@ -149,7 +156,7 @@ pub fn run(tier: Tier) -> ! {
     let mut run = Run::new("C12", tier);
     let max_len = if tier == Tier::Quick { 2 } else { 3 };
     let all_scripts = scripts(max_len);
-    let inputs = [("abxab", "bbaxb"), ("xab", "axxb"), ("12 34", "ab 12"), ("ab\nc #\nd", "\n#a\n"), ("acabca", "ba")];
+    let inputs = [("abxab", "bbaxb"), ("xab", "axxb"), ("12 34", "ab 12"), ("abaab", "bab"), ("ab\nc #\nd", "\n#a\n"), ("acabca", "ba")];
     let mut total = Acc { samples: Samples::new(6), ..Default::default() };
     let mut fams = vec![];
     for (ci, cfg) in cfgs().into_iter().enumerate() {
@@ -448,6 +455,67 @@ pub fn run(tier: Tier) -> ! {
             }
         }
         fams.push(json!({"family": "history independence against the reference: fresh scanner, scan x1 then x2 for ALL ordered pairs of inputs over {U+0000, a, é, U+10FFFF}^<=3 (thorough 4), every scan compared in lockstep with the reference; every 7th pair also through build()", "configurations": wide.len(), "inputs": ins.len(), "scans_compared": scans, "exhaustive": true}));
+    }
+
+    // sizes around 2^8 and 2^16 steps: a token, n repetitions, the first token again, scanned alone,
+    // with another iterator of the same scanner advanced in between, and with a peek in between.
+    // Anything counted per step and shared between iterators (or wrapped at 8/16 bits) shows at one
+    // of these sizes.
+    {
+        let cfg = Cfg::single(vec![CPat::new("xx", 0), CPat::new("y+", 1), CPat::new("z", 2)]);
+        let sc = cfg.build_uncached().unwrap();
+        let sizes: Vec<usize> = (245..=262).chain(65_520..=65_546).collect();
+        let mut n_runs = 0usize;
+        for &n in &sizes {
+            for prefix in ["xx", "xxz"] {
+                let input = format!("{prefix}{}xx", "y".repeat(n));
+                let want: Vec<(usize, usize, usize)> = {
+                    let mut v = vec![(0, 0, 2)];
+                    let mut o = 2;
+                    if prefix.len() == 3 {
+                        v.push((2, 2, 3));
+                        o = 3;
+                    }
+                    v.push((1, o, o + n));
+                    v.push((0, o + n, o + n + 2));
+                    v
+                };
+                for variant in 0..3 {
+                    n_runs += 1;
+                    total.runs += 1;
+                    let r = catch(|| {
+                        let mut it = sc.find_iter(&input);
+                        let mut other = sc.find_iter("y");
+                        let mut got = vec![];
+                        let mut k = 0;
+                        while let Some(m) = it.next() {
+                            got.push((m.token_type(), m.start(), m.end()));
+                            k += 1;
+                            if k == 1 {
+                                match variant {
+                                    1 => {
+                                        let _ = other.next();
+                                    }
+                                    2 => {
+                                        let _ = it.peek_n(1);
+                                    }
+                                    _ => {}
+                                }
+                            }
+                            if k > 8 {
+                                break;
+                            }
+                        }
+                        got
+                    });
+                    let what = ["alone", "another iterator of the scanner advanced once after the first token", "peek_n(1) after the first token"][variant];
+                    if r.as_ref().ok() != Some(&want) {
+                        total.viol.add("", || Violation { key: String::new(), summary: format!("{} on {prefix:?} + {n} x 'y' + \"xx\" ({what}): tokens {:?}, expected {want:?}", cfg.show(), r.as_ref().map(|v| v.iter().take(6).collect::<Vec<_>>())), replay: json!({"configuration": cfg.to_json(), "input": format!("{prefix:?} followed by {n} times 'y' followed by \"xx\""), "calls": ["find_iter(input)", "next()", what, "next() until None"], "expected": format!("{want:?}")}) });
+                    }
+                }
+            }
+        }
+        fams.push(json!({"family": "size sweep: `xx`/`xxz` + n x y + `xx` for n in 245..262 and 65 520..65 546, scanned alone, with another iterator advanced once after the first token, with a peek after the first token", "runs": n_runs, "exhaustive": true}));
     }
 
     let n_dis = total.viol.total();
